@@ -4,8 +4,9 @@ import HcipyVerif.Model.Layer
 
 Three pieces of the class, each as the code computes it:
 
-1. `calculate_propagators`: `np.argsort(-heights)` (stable for the list sizes used: insertion sort below 17 elements),
-   the layers in that order, with `scintillation` a `FresnelPropagator(grid, Δh)` between consecutive layers and one
+1. `calculate_propagators`: `np.argsort(-heights)` (NumPy's default sort is not stable: layers of equal height come in an
+   unspecified order — the model takes the stable one, the harness compares modulo the order within a group of equal
+   heights, and no theorem depends on it), the layers in that order, with `scintillation` a `FresnelPropagator(grid, Δh)` between consecutive layers and one
    over the lowest height down to the ground when that height is positive — `buildElements`;
    the `_dirty` flag of the `layers` / `scintillation` setters and the lazy rebuild in `forward`/`backward` — `Atm`.
 2. the fan-out of `reset`, `evolve_until` (and the `t` setter), `Cn_squared` and `outer_scale` over the list of layers
